@@ -90,7 +90,7 @@ fn check_kind(bi: &BootInformation, typ: u32, first: Option<TagAt>, mem: &[u8], 
             let areas = t.memory_areas();
             c.eq("areas.len", areas.len(), (b.len() - 16) / 24);
             c.eq("areas.addr", addr_of(areas), exp_addr.unwrap() + 16);
-            for (i, a) in areas.iter().enumerate() {
+            for (i, a) in areas.iter().enumerate().take((b.len() - 16) / 24) {
                 let o = 16 + 24 * i;
                 c.eq("area.start_address", a.start_address(), le64(b, o));
                 c.eq("area.size", a.size(), le64(b, o + 8));
@@ -274,7 +274,7 @@ fn check_kind(bi: &BootInformation, typ: u32, first: Option<TagAt>, mem: &[u8], 
             let n = (b.len() - 16) / d;
             let it = t.memory_areas();
             c.eq("areas.len", it.len(), n);
-            for (i, a) in it.enumerate() {
+            for (i, a) in it.enumerate().take(n) {
                 let e = efi_decode(&b[16 + i * d..16 + i * d + 40]);
                 c.eq("desc", (a.ty.0, a.phys_start, a.virt_start, a.page_count, a.att.bits()), (e.ty, e.phys_start, e.virt_start, e.page_count, e.att));
             }
